@@ -1721,8 +1721,8 @@ pub fn run(report: &mut Report, replay: Option<&str>) {
 
     // random soups and sources on worker threads (one model process per thread)
     let threads = 12usize;
-    let soups_per_thread = if thorough { 12_000 } else { 1_500 };
-    let sources_per_thread = if thorough { 2_500 } else { 250 };
+    let soups_per_thread = if thorough { 80_000 } else { 10_000 };
+    let sources_per_thread = if thorough { 16_000 } else { 2_000 };
     let seeds: Vec<Rng> = (0..threads).map(|_| rng.fork()).collect();
     let handles: Vec<_> = seeds
         .into_iter()
